@@ -158,16 +158,24 @@ func (i *messageField) Scan(src interface{}) error {
 		return nil
 	}
 
+	var value string
+
 	switch v := src.(type) {
 	case []byte:
-		i.value = string(v)
+		value = string(v)
 	case string:
-		i.value = string([]byte(v))
+		value = string([]byte(v))
 	default:
 		return fmt.Errorf("unsupported Scan, storing driver.Value type %T into type %T", src, *i)
 	}
 
-	i.set = true
+	// Scanned values must be single-line, just as any other field value.
+	f, err := newMessageField(value)
+	if err != nil {
+		return err
+	}
+
+	*i = f
 
 	return nil
 }
